@@ -211,7 +211,7 @@ IMM_A = [0, 1, -1, 3, 4, -4, 2047, -2048]
 def boundary_cases(op):
     """Deterministic boundary product for one mnemonic (present under every seed)."""
     out = []
-    memw = {str(a): v for a, v in [(B, 0x80FF7F01), (B + 4, 0x00434241), (T - 4, 0x818283FF), (T - 8, 0x7F80FF00)]}
+    memw = {str(a): v for a, v in [(B, 0x80FF7F01), (B + 4, 0x00434241), (B + 8, 0x8000FFFE), (B + 12, 0x7FFF8001), (T - 4, 0x818283FF), (T - 8, 0x7F80FF00)]}
     if op in rv32.R_OPS:
         for a, b in itertools.product(BV, BV):
             out.append({"kind": "single", "ins": [op, 3, 1, 2], "pc": 0, "regs": {"1": a, "2": b}, "mem": {}})
@@ -257,6 +257,27 @@ def boundary_cases(op):
         for code in [1, 2, 4, 11, 34, 35, 36, 10, 93, 0, 3, 5, 9, 12, 37, 92, 94, M32]:
             for a0 in BV + [65, 10, 127, 128, 255, 0x3F800000, 0x7FC00000, 0xFF800000, 0x7F800000, 0x80000000, B, B + 2, B + 4, B + 8, B + 9, T - 4, T - 1, B - 1]:
                 out.append({"kind": "single", "ins": [op], "pc": 0, "regs": {"17": code, "10": a0}, "mem": strmem})
+    # every rd/rs1/rs2 aliasing pattern over {x0, x1, x2} (deterministic)
+    R3 = [0, 1, 2]
+    av = {"1": 0x80000001, "2": 7}
+    if op in rv32.R_OPS:
+        for rd, a, b in itertools.product(R3, R3, R3):
+            out.append({"kind": "single", "ins": [op, rd, a, b], "pc": 0xC, "regs": av, "mem": {}})
+    elif op in rv32.I_OPS or op in rv32.SH_OPS:
+        for rd, a, i in itertools.product(R3, R3, [5, 31] if op in rv32.SH_OPS else [5, -5]):
+            out.append({"kind": "single", "ins": [op, rd, a, i], "pc": 0xC, "regs": av, "mem": {}})
+    elif op in rv32.LOAD_OPS:
+        for rd, a in itertools.product(R3, R3):
+            out.append({"kind": "single", "ins": [op, rd, a, 4 if a else 0], "pc": 0xC, "regs": {"1": B, "2": B + 8}, "mem": memw})
+    elif op in rv32.STORE_OPS:
+        for a, b in itertools.product(R3, R3):
+            out.append({"kind": "single", "ins": [op, a, b, 4], "pc": 0xC, "regs": {"1": B, "2": B + 8}, "mem": {}})
+    elif op in rv32.BRANCH_OPS:
+        for a, b in itertools.product(R3, R3):
+            out.append({"kind": "single", "ins": [op, a, b, 8], "pc": 0xC, "regs": av, "mem": {}})
+    elif op == "jalr":
+        for rd, a in itertools.product(R3, R3):
+            out.append({"kind": "single", "ins": [op, rd, a, 4], "pc": 0xC, "regs": {"1": 0x21, "2": 0x40}, "mem": {}})
     return out
 
 
